@@ -96,7 +96,7 @@ def gen_plan(prop, tier, rng, i):
                 ev["dst"] = _mkpath(rng, (wstart, wend))
         events.append(ev)
     plan = {"engine": "evsim15", "flags": flags, "wstart": wstart, "wend": wend, "events": events,
-            "recording": None}
+            "recording": None, "tzform": rng.choice(["utc", "utc", "naive", "+0530", "-0800"])}
     if i % 3 == 0:
         cfg = M.gen_cfg(rng, {"maxcap": 100})
         t = 0
@@ -137,10 +137,17 @@ def shrink_candidates(plan):
         yield p
 
 
-def _dt(ms):
+def _dt(ms, form="utc"):
     if ms is None:
         return None
-    return datetime.datetime(1970, 1, 1, tzinfo=datetime.timezone.utc) + datetime.timedelta(milliseconds=ms)
+    t = datetime.datetime(1970, 1, 1, tzinfo=datetime.timezone.utc) + datetime.timedelta(milliseconds=ms)
+    if form == "naive":
+        return t.replace(tzinfo=None)
+    if form == "+0530":
+        return t.astimezone(datetime.timezone(datetime.timedelta(hours=5, minutes=30)))
+    if form == "-0800":
+        return t.astimezone(datetime.timezone(datetime.timedelta(hours=-8)))
+    return t
 
 
 def _name_ms(path):
@@ -232,7 +239,8 @@ def run_plan(prop, plan):
                 calls.append(("opened", e.src_path, None))
 
         try:
-            h = Rec(starttime=_dt(plan["wstart"]), endtime=_dt(plan["wend"]), **flags)
+            h = Rec(starttime=_dt(plan["wstart"], plan.get("tzform", "utc")), endtime=_dt(plan["wend"], plan.get("tzform", "utc")),
+                    **flags)
         except ValueError:
             # "Must include at least one file type": nothing can be listed either
             idrf = flags["include_drf"]
